@@ -75,6 +75,8 @@ type only struct {
 	Method string   `json:"method"`
 	Target string   `json:"target"`
 	Want   outcome  `json:"want"`
+	// Redeployed: the request was made after the tree had been served once and then redeployed
+	Redeployed bool `json:"redeployed,omitempty"`
 }
 
 // ---- fixture ---------------------------------------------------------------------------------------
@@ -269,6 +271,71 @@ func newFixture(dir string, seed int64, protIDs []string, shapes []shape) (*fixt
 	}
 	os.RemoveAll(base)
 	return nil, lastErr
+}
+
+// redeploy replaces every directory and regular file below the root by a new file-system object
+// of the same name and content (staged under a temporary name, renamed into place).
+func (f *fixture) redeploy() error {
+	root := filepath.Join(f.base, "root")
+	var copyTree func(src, dst string) error
+	copyTree = func(src, dst string) error {
+		if err := os.Mkdir(dst, 0o755); err != nil {
+			return err
+		}
+		ents, err := os.ReadDir(src)
+		if err != nil {
+			return err
+		}
+		for _, e := range ents {
+			sp, dp := filepath.Join(src, e.Name()), filepath.Join(dst, e.Name())
+			if e.IsDir() {
+				if err := copyTree(sp, dp); err != nil {
+					return err
+				}
+				continue
+			}
+			b, err := os.ReadFile(sp)
+			if err != nil {
+				return err
+			}
+			if err := os.WriteFile(dp, b, 0o644); err != nil {
+				return err
+			}
+		}
+		return nil
+	}
+	ents, err := os.ReadDir(root)
+	if err != nil {
+		return err
+	}
+	for _, e := range ents {
+		cur := filepath.Join(root, e.Name())
+		staged, old := cur+".staged", cur+".old"
+		if e.IsDir() {
+			if err := copyTree(cur, staged); err != nil {
+				return err
+			}
+			if err := os.Rename(cur, old); err != nil {
+				return err
+			}
+			if err := os.Rename(staged, cur); err != nil {
+				return err
+			}
+			os.RemoveAll(old)
+			continue
+		}
+		b, err := os.ReadFile(cur)
+		if err != nil {
+			return err
+		}
+		if err := os.WriteFile(staged, b, 0o644); err != nil {
+			return err
+		}
+		if err := os.Rename(staged, cur); err != nil { // the old object still exists at this point: a new inode
+			return err
+		}
+	}
+	return nil
 }
 
 func (f *fixture) close() {
@@ -574,8 +641,6 @@ func TestC03(t *testing.T) {
 	res.AddExtra("table_entries_sampled_long_paths", len(jobs)-nshort)
 
 	const workers = 12
-	ch := make(chan job, 256)
-	var wg sync.WaitGroup
 	var mu sync.Mutex
 	var infra string
 	found := map[string]finding{}
@@ -584,89 +649,112 @@ func TestC03(t *testing.T) {
 	drifts, driftSamples := 0, []string{}
 	agree := map[string]int{}
 	requests, selftestHit := 0, 0
-	for w := 0; w < workers; w++ {
-		wg.Add(1)
-		wrnd := rand.New(rand.NewSource(seed*104729 + int64(w)))
-		go func() {
-			defer wg.Done()
-			cl := &client{f: fx}
-			defer cl.close()
-			for j := range ch {
-				c := j.c
-				// selftest: responses obtained WITH valid credentials are judged as if they had been
-				// obtained without - the token search must then report the protected content
-				on := mkOnly(c, j, seed, wrnd)
-				o, err := cl.do(c.Prot, on)
-				nreq := 1
-				var fs []finding
-				var d string
-				if err == nil {
-					if j.v == 0 || hx.SelfTest() {
-						fs = judgeUnauth(c, on, &o)
+	pass := func(passNo int, jobs []job) {
+		ch := make(chan job, 256)
+		var wg sync.WaitGroup
+		for w := 0; w < workers; w++ {
+			wg.Add(1)
+			wrnd := rand.New(rand.NewSource(seed*104729 + int64(w) + int64(passNo)*7919))
+			go func() {
+				defer wg.Done()
+				cl := &client{f: fx}
+				defer cl.close()
+				for j := range ch {
+					c := j.c
+					// selftest: responses obtained WITH valid credentials are judged as if they had been
+					// obtained without - the token search must then report the protected content
+					on := mkOnly(c, j, seed, wrnd)
+					on.Redeployed = passNo == 1
+					o, err := cl.do(c.Prot, on)
+					nreq := 1
+					var fs []finding
+					var d string
+					if err == nil {
+						if j.v == 0 || hx.SelfTest() {
+							fs = judgeUnauth(c, on, &o)
+						}
+						if j.v == 1 && !hx.SelfTest() {
+							// AuthTransparent: the twin site without the protection directive
+							var o2 obs
+							o2, err = cl.do("none", on)
+							nreq++
+							if err == nil && !sameResp(&o, &o2) {
+								fs = append(fs, finding{key: fmt.Sprintf("C03/auth-not-transparent/prot=%s/%s/%s %s", c.Prot, shapeKey(on.Shape), on.Method, on.Target),
+									on: on, observed: map[string]interface{}{"protected_site": o, "unprotected_twin": o2},
+									what: fmt.Sprintf("%s %s with valid credentials on a site with %s (%s) is not served like on the same site without protection: status %d files %v vs status %d files %v",
+										on.Method, on.Target, protText(c.Prot), shapeKey(on.Shape), o.Status, o.Files, o2.Status, o2.Files)})
+							}
+						}
+						d = drift(on, &o)
 					}
-					if j.v == 1 && !hx.SelfTest() {
-						// AuthTransparent: the twin site without the protection directive
-						var o2 obs
-						o2, err = cl.do("none", on)
-						nreq++
-						if err == nil && !sameResp(&o, &o2) {
-							fs = append(fs, finding{key: fmt.Sprintf("C03/auth-not-transparent/prot=%s/%s/%s %s", c.Prot, shapeKey(on.Shape), on.Method, on.Target),
-								on: on, observed: map[string]interface{}{"protected_site": o, "unprotected_twin": o2},
-								what: fmt.Sprintf("%s %s with valid credentials on a site with %s (%s) is not served like on the same site without protection: status %d files %v vs status %d files %v",
-									on.Method, on.Target, protText(c.Prot), shapeKey(on.Shape), o.Status, o.Files, o2.Status, o2.Files)})
+					mu.Lock()
+					requests += nreq
+					if err != nil {
+						if infra == "" {
+							infra = fmt.Sprintf("request %s %s failed: %v", on.Method, on.Target, err)
+						}
+						mu.Unlock()
+						continue
+					}
+					if hx.SelfTest() {
+						selftestHit += len(fs)
+					} else {
+						for _, f := range fs {
+							class := strings.Join(strings.SplitN(f.key, "/", 5)[:4], "/") // clause, protection variant, shape / file
+							if _, ok := found[f.key]; !ok && perClass[class] < 2 && len(found) < 300 {
+								perClass[class]++
+								found[f.key] = f
+								foundCase[f.key] = c
+							}
 						}
 					}
-					d = drift(on, &o)
-				}
-				mu.Lock()
-				requests += nreq
-				if err != nil {
-					if infra == "" {
-						infra = fmt.Sprintf("request %s %s failed: %v", on.Method, on.Target, err)
+					if len(fs) == 0 {
+						if d != "" {
+							drifts++
+							if len(driftSamples) < 8 {
+								driftSamples = append(driftSamples, fmt.Sprintf("%s %s prot=%s %s creds=%s ae=%v: %s", on.Method, on.Target, c.Prot, shapeKey(on.Shape), on.Creds, on.AE, d))
+							}
+						} else if on.Method == "GET" {
+							agree[fmt.Sprintf("%d/%s", on.Want.St, on.Want.K)]++
+						}
 					}
 					mu.Unlock()
-					continue
-				}
-				if hx.SelfTest() {
-					selftestHit += len(fs)
-				} else {
-					for _, f := range fs {
-						class := strings.Join(strings.SplitN(f.key, "/", 5)[:4], "/") // clause, protection variant, shape / file
-						if _, ok := found[f.key]; !ok && perClass[class] < 2 && len(found) < 300 {
-							perClass[class]++
-							found[f.key] = f
-							foundCase[f.key] = c
-						}
+					nt := ""
+					if c.Kind != "none" && (on.Want.K != "none" || on.Want.St == 401 || (c.Kind == "internal" && on.Want.St == 404)) {
+						nt = fmt.Sprintf("%s|%s|%s|%v|%s|%v|%d", c.Prot, shapeKey(on.Shape), strings.Join(c.Segs, "/"), on.Slash, on.Mode, on.AE, j.v)
+					}
+					res.Count(nt)
+					if nt != "" && j.level > 0 && (j.i+j.s+j.m+j.a)%11 == 0 && len(c.Segs) >= 2 {
+						res.Sample(map[string]interface{}{"site": protText(c.Prot) + " " + shapeKey(on.Shape), "request": on.Method + " " + on.Target, "credentials": on.Creds,
+							"model": on.Want, "observed": o})
 					}
 				}
-				if len(fs) == 0 {
-					if d != "" {
-						drifts++
-						if len(driftSamples) < 8 {
-							driftSamples = append(driftSamples, fmt.Sprintf("%s %s prot=%s %s creds=%s ae=%v: %s", on.Method, on.Target, c.Prot, shapeKey(on.Shape), on.Creds, on.AE, d))
-						}
-					} else if on.Method == "GET" {
-						agree[fmt.Sprintf("%d/%s", on.Want.St, on.Want.K)]++
-					}
-				}
-				mu.Unlock()
-				nt := ""
-				if c.Kind != "none" && (on.Want.K != "none" || on.Want.St == 401 || (c.Kind == "internal" && on.Want.St == 404)) {
-					nt = fmt.Sprintf("%s|%s|%s|%v|%s|%v|%d", c.Prot, shapeKey(on.Shape), strings.Join(c.Segs, "/"), on.Slash, on.Mode, on.AE, j.v)
-				}
-				res.Count(nt)
-				if nt != "" && j.level > 0 && (j.i+j.s+j.m+j.a)%11 == 0 && len(c.Segs) >= 2 {
-					res.Sample(map[string]interface{}{"site": protText(c.Prot) + " " + shapeKey(on.Shape), "request": on.Method + " " + on.Target, "credentials": on.Creds,
-						"model": on.Want, "observed": o})
-				}
-			}
-		}()
+			}()
+		}
+		for _, j := range jobs {
+			ch <- j
+		}
+		close(ch)
+		wg.Wait()
 	}
-	for _, j := range jobs {
-		ch <- j
+	pass(0, jobs)
+	// second pass after a redeploy: every directory and file of the tree is replaced by a copy
+	// under the same name (staged next to it and renamed into place, as deployments do); the
+	// table of Protect.tla applies unchanged - protection is by name, not by file identity
+	if infra == "" && !hx.SelfTest() {
+		if err := fx.redeploy(); err != nil {
+			res.Infra = "redeploy of the fixture tree: " + err.Error()
+			return
+		}
+		n2 := len(jobs) / 5
+		idx := hx.SampleIdx(rnd, len(jobs), n2)
+		var again []job
+		for _, i := range idx {
+			again = append(again, jobs[i])
+		}
+		res.AddExtra("table_entries_repeated_after_redeploy", len(again))
+		pass(1, again)
 	}
-	close(ch)
-	wg.Wait()
 
 	for _, k := range hx.SortedKeys(found) {
 		confirm(t, res, foundCase[k], found[k])
@@ -707,6 +795,14 @@ func confirm(t *testing.T, res *hx.Result, c *pcase, f finding) {
 	defer fx.close()
 	cl := &client{f: fx}
 	defer cl.close()
+	if f.on.Redeployed {
+		// the same history in small: serve once, redeploy, ask again
+		cl.do(c.Prot, f.on)
+		if fx.redeploy() != nil {
+			return
+		}
+		f.what += " (after the tree had been served and then redeployed: every file and directory replaced by a copy of the same name)"
+	}
 	o, err := cl.do(c.Prot, f.on)
 	if err != nil {
 		return
@@ -753,6 +849,13 @@ func replayOne(t *testing.T, res *hx.Result, c *pcase) {
 		return
 	}
 	cl := &client{f: fx}
+	if on.Redeployed {
+		cl.do(c.Prot, on)
+		if err := fx.redeploy(); err != nil {
+			res.Infra = "redeploy: " + err.Error()
+			return
+		}
+	}
 	o, err := cl.do(c.Prot, on)
 	cl.close()
 	fx.close()
